@@ -276,6 +276,14 @@ def main(argv=None):
     for q in used_trusted:
         c_ = CONTRACTS.get(q)
         assumptions += (c_.assumptions() if c_ is not None and c_.assumptions() else [f"{q}: assumed contract (body not checked)"])
+    try:  # `derived` clauses of PROVED contracts are assumed at their call sites: name them too
+        for q, c_ in sorted(CONTRACTS.items()):
+            if not c_.trusted and hasattr(c_, "derived") and pid in (c_.properties or []):
+                for a_ in (c_.assumptions() or []):
+                    if a_ not in assumptions:
+                        assumptions.append(a_)
+    except Exception:
+        pass
     assumptions.append("builtin models used as assumed contracts of CPython primitives: " + ", ".join(sorted(pyvc_models.USED_MODELS)))
     all_proved = not failing and not undecided and not checker_errors and not bounded_violations
     evidence = {
